@@ -99,6 +99,15 @@ def pipeline(chk, prefix):
     chk.stages["S1_negative_config"] = {"assumption_false_as_required": bool(neg.assume_failed)}
     if not neg.assume_failed:
         chk.machinery("Neg_Markings did not fail")
+    if prefix == "C07:":
+        # the representation side: lists of entries abstract to sets of pairs, and the mutators computed on expanded lists do not depend on the layout
+        lay = chk.add_tlc("S1_layout_independence", tlc.run("MC_MarkingsLayout", "MC_MarkingsLayout", workers=4, scratch=chk.scratch, timeout=3600))
+        if not lay.completed or lay.assume_failed:
+            chk.spec_violation("S1_layout_independence", lay)
+        nlay = tlc.run("Neg_MarkingsLayout", "Neg_MarkingsLayout", workers=2, scratch=chk.scratch)
+        chk.stages["S1_negative_config_layout"] = {"assumption_false_as_required": bool(nlay.assume_failed)}
+        if not nlay.assume_failed:
+            chk.machinery("Neg_MarkingsLayout did not fail")
     lines = []
     # ---- S2: TLC behaviours replayed on hosts realising the hazard selectors
     behs = behaviours(chk, quick)
